@@ -108,6 +108,18 @@ def run(seed=0):
             want = np.arange(lo, hi, st)
             if len(got) != len(want) or not np.allclose(got, want, rtol=1e-12):
                 fails.append(f"arange {lo} {hi} {st}: {len(got)} vs {len(want)}")
+        # integer-typed *_like arrays: stores truncate toward zero as numpy's double -> int64 assignment does
+        for t in range(20):
+            proto = rng.integers(-3, 9, size=3)
+            vals = np.round(rng.uniform(-4, 9, size=3), 2)
+            n_cases += 1
+            want = np.empty_like(proto)
+            want[:] = vals
+            got = NPX.empty_like(proto)
+            got[:] = _c(vals)
+            got[0] = sym.lift(float(vals[0]))
+            if not np.array_equal(_v(got), want.astype(float)):
+                fails.append(f"empty_like(int) store: {vals} -> {_v(got)} vs {want}")
         # 4x4 solve (Cramer) against LAPACK
         for t in range(10):
             A = np.round(rng.normal(size=(4, 4)), 2)
